@@ -280,6 +280,18 @@ int main()
       {
         quill::MacroMetadata mm{s.srcloc.c_str(), s.func.c_str(), "{}", s.has_tags ? s.tags.c_str() : nullptr,
                                 quill::LogLevel::Info, quill::MacroMetadata::Event::Log};
+        {
+          // the formatter is used for another statement first (every attribute non-empty): nothing of it
+          // may leak into the line of the case's statement (slots, named-args buffer, tags)
+          Stmt decoy;
+          decoy.tid = "tid-decoy"; decoy.tname = "tname-decoy"; decoy.pid = "pid-decoy"; decoy.logger = "logger-decoy";
+          decoy.level = "LEVEL-DECOY"; decoy.shortc = "LD"; decoy.srcloc = "decoy/dir/decoy.cpp:999"; decoy.func = "decoy_fn";
+          decoy.has_nargs = true; decoy.nargs = {{"dk1", "dv1"}, {"dk2", "dv2"}}; decoy.msg = "decoy message"; decoy.ts = 86399999999999ULL;
+          quill::MacroMetadata dmm{decoy.srcloc.c_str(), decoy.func.c_str(), "{}", "#decoy ", quill::LogLevel::Info,
+                                   quill::MacroMetadata::Event::Log};
+          std::vector<u64> ignored;
+          put_format(ignored, *pf, decoy, decoy.msg, dmm);
+        }
         out.push_back(0);
         put_format(out, *pf, s, s.msg, mm);
         // a second call on the same formatter (buffers and slots are reused) must give the same bytes
